@@ -49,8 +49,9 @@ impl From<std::io::Error> for DecodeError { #[verifier::external_body] fn from(e
                       note="the encoder appends exactly the defined encoding; the only failure is a PushB literal longer than 255 bytes, which writes nothing")]),
         Fn(O, "opcodes_weight", mode="assume", ensures=[C("value", "res as int == spec_weight(opcodes@)", "C11")]),
         Fn(L, "from_bytes", impl="Covenant", home="C12", implicit_props=("C09", "C12"),
-           ensures=[C("whole", "match dec_all(b@) { Some(ops) => res is Ok && res->Ok_0@ == ops, None => res is Err }", "C12"),
-                    C("reencodes", "res is Ok ==> enc_all(res->Ok_0@) == Some(b@)", "C12")],
+           ensures=[C("whole", "match dec_all(b@) { Some(ops) => res is Ok && res->Ok_0@ == ops, None => res is Err }", "C12", "C04", "C05",
+                      note="C04/C05: validate_tx_scripts rejects a coin whose covenant bytes do not decode, and the weight charged for them is 0 -- both rest on from_bytes failing on EVERY string that is not a whole program (seed C04h)"),
+                    C("reencodes", "res is Ok ==> enc_all(res->Ok_0@) == Some(b@)", "C12", "C04")],
            rewrites=[("MUTPARAM", "b", "cur"), ("SUB", "Ok(Self(opcodes.into()))", "Ok(Self(Arc::new(opcodes)))")],
            injects=[Inject("before_tail", "proof { if dec_all(b@) is Some { lemma_dec_then_enc(b@); } }")],
            loops=[Loop(0, decreases="cur@.len()",
@@ -60,7 +61,7 @@ impl From<std::io::Error> for DecodeError { #[verifier::external_body] fn from(e
                    if dec_all(cur@) is Some { let r = dec_all(cur@)->Some_0; assert(dec_all(bb) == Some(seq![op] + r)); assert(ops0 + (seq![op] + r) =~= ops0.push(op) + r); }
                    else { assert(dec_all(bb) is None); } }""",
                invariants=[
-               C("progress", """(dec_all(b@) is Some <==> dec_all(cur@) is Some) && (dec_all(b@) is Some ==> dec_all(b@)->Some_0 == opcodes@ + dec_all(cur@)->Some_0)""", "C12"),
+               C("progress", """(dec_all(b@) is Some <==> dec_all(cur@) is Some) && (dec_all(b@) is Some ==> dec_all(b@)->Some_0 == opcodes@ + dec_all(cur@)->Some_0)""", "C12", "C04", "C05"),
            ])]),
         Fn(L, "to_bytes", impl="Covenant", home="C12", implicit_props=("C09", "C12"), uses="group_core_axioms",
            requires=[C("encodable", "enc_all(self@) is Some", note="every PushB literal has at most 255 bytes (true of every covenant obtained from from_bytes)")],
